@@ -12,10 +12,8 @@ EXTENDS Dispatch, Json
 VARIABLE hist
 gvars == <<vars, hist>>
 
-Obs == [outcome |-> outcome, phase |-> phase, consumed |-> consumed,
-        nt |-> Len(toTarget), np |-> Len(toPeer), tout |-> tgtOut,
-        peerOpen |-> ~srvClosedPeer, tgtOpen |-> ~srvClosedTgt /\ ~tgtClosed,
-        own |-> Len(SelectSeq(toPeer, LAMBDA x : x = 0))]
+Obs == [outcome |-> outcome, consumed |-> consumed, nt |-> Len(toTarget), np |-> Len(toPeer),
+        peerOpen |-> ~srvClosedPeer, own |-> Len(SelectSeq(toPeer, LAMBDA x : x = 0))]
 
 CONSTANTS FullTimeline,  \* TRUE: Timeout and PeerClose at any point; FALSE: at the start, after the first segment, at the end
           Mode           \* "reader": every stream shape against a silent, reachable target (reading, segmentation, deadline, close)
